@@ -75,6 +75,12 @@ impl DeleteVector {
         self.rowset_id
     }
 
+    /// Verification hook: the sorted row ids this vector deletes.
+    #[cfg(feature = "verif")]
+    pub fn verif_deletes(&self) -> &[u32] {
+        &self.deletes
+    }
+
     /// Apply the current DV info to a visibility bitmap
     pub fn apply_to(&self, data: &mut BitVec, offset_row_id: u32) {
         let pos = self.deletes.partition_point(|x| *x < offset_row_id);
